@@ -143,7 +143,7 @@ class Evaluator:
 
     def _check(self, v, node):
         if isinstance(v, float):
-            raise NotEvaluable(f"float value in index code: {ast.unparse(node)[:60]}")
+            return v  # floats may be carried (tolerance constants) but no arithmetic is defined on them
         if not isinstance(v, ALLOWED) and not callable(v):
             raise NotEvaluable(f"value of type {type(v).__name__} outside the index domain: {ast.unparse(node)[:60]}")
         return v
@@ -528,8 +528,8 @@ class Evaluator:
             elif isinstance(op, ast.IsNot):
                 ok = left is not right
             else:
-                if not (isinstance(left, int) and isinstance(right, int)):
-                    raise NotEvaluable(f"ordering comparison on non-integers: {ast.unparse(n)[:60]}")
+                if not (isinstance(left, (int, float)) and isinstance(right, (int, float))):
+                    raise NotEvaluable(f"ordering comparison on non-numbers: {ast.unparse(n)[:60]}")
                 ok = {ast.Lt: left < right, ast.LtE: left <= right, ast.Gt: left > right, ast.GtE: left >= right}[type(op)]
             if not ok:
                 return False
